@@ -6,10 +6,14 @@
 //   io_mm_rt_sparse   L kind b e <CRS>     -> <hex written by mm_write> <result of reading it back>
 //   io_mm_rt_dense    L kind b e n m <val> -> likewise for the dense writer / reader
 //   io_bin_crs_size   L hex                -> ok n | error
-//   io_bin_read_crs   L w hex b e          -> ok n <ptr> <col> <val> | error      (w = 8-byte words per value: 1 real, 2 complex)
-//   io_bin_read_dense L w hex b e          -> ok n m <val> | error
-//   io_bin_rt_crs     L w b e <CRS>        -> <hex written by the io::write sequence of mm2bin> <read result>
-//   io_bin_rt_dense   L w b e n m <val>    -> likewise
+//   io_bin_read_crs   L T hex b e          -> ok n <ptr> <col> <val> | error
+//   io_bin_read_dense L T hex b e          -> ok n m <val> | error
+//   io_bin_rt_crs     L T b e <CRS>        -> <hex written by the io::write sequence of mm2bin> <read result>
+//   io_bin_rt_dense   L T b e n m <val>    -> likewise
+// T = instantiation of the binary reader: 1 = double (one 8-byte word per value), 2 = std::complex<double> (two 8-byte
+// words), f = float (one 4-byte word), each with Col = ptrdiff_t; the sparse ops also take i1 / i2 / if = the same
+// value types with Col = int (4-byte column indices), so that sizeof(Col) and sizeof(Val) vary independently
+// (8/8, 8/16, 8/4, 4/8, 4/16, 4/4).  SizeT = size_t and Ptr = ptrdiff_t throughout.
 //   io_libc_roundtrip L count seed         -> tested     (labelled TEST of libc's "%.20e"/strtod round trip through
 //                                                          write_value/read_value; no model content)
 // kind = real | complex | integer.  MatrixMarket values are exact rationals of binary64 numbers (complex: two of
@@ -19,7 +23,8 @@
 // Implementation-side oracles (independent of the Lean model):
 //   * whatever a reader returns without throwing is structurally valid (ptr monotone from 0, ptr.back = col.size =
 //     val.size, columns inside [0, ncols) for MatrixMarket, rows sorted),
-//   * a row-range read equals the slice of the full read,
+//   * a row-range read equals the slice of the full read; a valid row range of a file whose full read succeeds does
+//     not throw (binary readers),
 //   * a symmetric-storage file yields a symmetric matrix,
 //   * read(write(A)) is bitwise A (rows sorted by column), for every kind.
 // Allocation requests above MEM_LIMIT throw std::bad_alloc (the model has the same parameter), so that a damaged
@@ -108,22 +113,35 @@ template <> struct K<int> {
 template <class V> struct W;
 template <> struct W<double> {
     static const int w = 1;
+    static const char* name() { return "real"; }
     static double parse(Cur &c) { const std::string &s = c.tok(); char *e; errno = 0; unsigned long long u = strtoull(s.c_str(), &e, 10); if (*e || s.empty() || errno || s[0] == '-') throw bad_input("u64"); uint64_t x = u; double d; memcpy(&d, &x, 8); return d; }
     static void print(Line &l, double v) { l << std::to_string((unsigned long long)bits(v)); }
     static bool same(double a, double b) { return bits(a) == bits(b); }
 };
 template <> struct W<cplx> {
     static const int w = 2;
+    static const char* name() { return "complex"; }
     static cplx parse(Cur &c) { double x = W<double>::parse(c); double y = W<double>::parse(c); return cplx(x, y); }
     static void print(Line &l, cplx v) { W<double>::print(l, v.real()); W<double>::print(l, v.imag()); }
     static bool same(cplx a, cplx b) { return K<cplx>::same(a, b); }
 };
 
-template <class V> struct Sparse { size_t n = 0, m = 0; std::vector<ptrdiff_t> ptr, col; std::vector<V> val; };
+template <> struct W<float> {
+    static const int w = 1;
+    static const char* name() { return "float"; }
+    static uint32_t bits32(float x) { uint32_t u; memcpy(&u, &x, 4); return u; }
+    static float parse(Cur &c) { const std::string &s = c.tok(); char *e; errno = 0; unsigned long long u = strtoull(s.c_str(), &e, 10); if (*e || s.empty() || errno || s[0] == '-' || u > 0xffffffffULL) throw bad_input("u32"); uint32_t x = (uint32_t)u; float d; memcpy(&d, &x, 4); return d; }
+    static void print(Line &l, float v) { l << std::to_string((unsigned long long)bits32(v)); }
+    static bool same(float a, float b) { return bits32(a) == bits32(b); }
+};
+// tag of a binary instantiation: value kind, prefixed by the column type when it is not ptrdiff_t
+template <class V, class C> static std::string bin_tag() { return std::string(sizeof(C) == 4 ? "i32_" : "") + W<V>::name(); }
+
+template <class V, class C = ptrdiff_t> struct Sparse { size_t n = 0, m = 0; std::vector<ptrdiff_t> ptr; std::vector<C> col; std::vector<V> val; };
 template <class V> struct Dense_ { size_t n = 0, m = 0; std::vector<V> val; };
 
 // structural validity of what a reader returned (have_cols: MatrixMarket knows the column count)
-template <class V> static bool wf(const Sparse<V> &A, bool have_cols, std::string &why) {
+template <class V, class C> static bool wf(const Sparse<V, C> &A, bool have_cols, std::string &why) {
     if (A.ptr.size() != A.n + 1) { why = "ptr.size != nrows+1"; return false; }
     if (A.ptr[0] != 0) { why = "ptr[0] != 0"; return false; }
     for (size_t i = 0; i < A.n; ++i) if (A.ptr[i + 1] < A.ptr[i]) { why = "ptr not monotone"; return false; }
@@ -132,7 +150,7 @@ template <class V> static bool wf(const Sparse<V> &A, bool have_cols, std::strin
     for (size_t i = 0; i < A.n; ++i) for (auto j = A.ptr[i]; j + 1 < A.ptr[i + 1]; ++j) if (A.col[j] > A.col[j + 1]) { why = "row not sorted"; return false; }
     return true;
 }
-template <class V, class KK> static std::string show(const Sparse<V> &A, bool have_cols) {
+template <class V, class KK, class C> static std::string show(const Sparse<V, C> &A, bool have_cols) {
     Line l; l << "ok" << A.n; if (have_cols) l << A.m;
     l << A.ptr.size(); for (auto p : A.ptr) l << (long)p;
     l << A.col.size(); for (auto c : A.col) l << (long)c;
@@ -143,7 +161,7 @@ template <class V, class KK> static std::string show(const Dense_<V> &D) {
     Line l; l << "ok" << D.n << D.m << D.val.size(); for (auto &v : D.val) KK::print(l, v);
     return l.get();
 }
-template <class V, class KK> static bool same_slice(const Sparse<V> &P, const Sparse<V> &F, size_t b, size_t e) {
+template <class V, class KK, class C> static bool same_slice(const Sparse<V, C> &P, const Sparse<V, C> &F, size_t b, size_t e) {
     if (P.n != e - b || P.ptr.size() != P.n + 1) return false;
     for (size_t i = 0; i < P.n; ++i) {
         ptrdiff_t pl = P.ptr[i + 1] - P.ptr[i], fl = F.ptr[b + i + 1] - F.ptr[b + i];
@@ -162,7 +180,7 @@ template <class V> static bool real_mm_dense(Dense_<V> &D, long b, long e) {
     try { amgcl::io::mm_reader rd(case_path()); std::tie(D.n, D.m) = rd(D.val, b, e); return true; }
     catch (const std::exception &) { return false; }
 }
-template <class V> static bool real_bin_crs(Sparse<V> &A, long b, long e) {
+template <class V, class C> static bool real_bin_crs(Sparse<V, C> &A, long b, long e) {
     try { amgcl::io::read_crs(case_path(), A.n, A.ptr, A.col, A.val, b, e); return true; }
     catch (const std::exception &) { return false; }
 }
@@ -224,29 +242,52 @@ template <class V> static Result op_mm_read_dense(const std::string &label, cons
     classify(r, label, true, !file.empty(), !D.val.empty()); r.tag(std::string("mm_dense_") + KK::name());
     return r;
 }
-template <class V> static Result op_bin_read_crs(const std::string &label, const Bytes &file, long b, long e) {
+template <class V, class C> static Result op_bin_read_crs(const std::string &label, const Bytes &file, long b, long e) {
     typedef W<V> KK; Result r; put_file(file);
-    Sparse<V> A; bool ok = real_bin_crs(A, b, e);
-    if (!ok) { r.out = "error"; classify(r, label, false, !file.empty(), false); return r; }
+    Sparse<V, C> A; bool ok = real_bin_crs(A, b, e);
     std::string why;
+    if (!ok) {
+        r.out = "error";
+        if (b >= 0 || e >= 0) {                          // a valid range of a file whose full read succeeds must not throw
+            Sparse<V, C> F;
+            if (real_bin_crs(F, -1, -1) && wf(F, false, why)) {
+                long bb = b < 0 ? 0 : b, ee = e < 0 ? (long)F.n : e;
+                if (bb <= ee && ee <= (long)F.n) r.fail("row-range read_crs throws although the full read of the file succeeds");
+            }
+            r.tag("range");
+        }
+        classify(r, label, false, !file.empty(), false); return r;
+    }
     { long bb = b < 0 ? 0 : b, ee = e < 0 ? (long)A.n : e; A.n = (size_t)(ee - bb); }   // read_crs reports the FILE's row count in n
     if (!wf(A, false, why)) r.fail("read_crs returned a structurally invalid matrix: " + why);
     r.out = show<V, KK>(A, false);
     if (r.ok && (b >= 0 || e >= 0)) {
-        Sparse<V> F;
+        Sparse<V, C> F;
         if (real_bin_crs(F, -1, -1) && wf(F, false, why)) {
             long bb = b < 0 ? 0 : b, ee = e < 0 ? (long)F.n : e;
             if (bb <= ee && ee <= (long)F.n && !same_slice<V, KK>(A, F, bb, ee)) r.fail("row-range read_crs differs from the slice of the full read");
+            if (bb > 0 && bb <= ee && ee <= (long)F.n && F.ptr[bb] > 0 && F.ptr[ee] > F.ptr[bb]) r.tag("range_offset");   // stored entries in front of a non-empty range
         }
         r.tag("range");
     }
-    classify(r, label, true, !file.empty(), !A.val.empty()); r.tag(KK::w == 1 ? "bin_crs_real" : "bin_crs_complex");
+    classify(r, label, true, !file.empty(), !A.val.empty()); r.tag("bin_crs_" + bin_tag<V, C>());
     return r;
 }
 template <class V> static Result op_bin_read_dense(const std::string &label, const Bytes &file, long b, long e) {
     typedef W<V> KK; Result r; put_file(file);
     Dense_<V> D; bool ok = real_bin_dense(D, b, e);
-    if (!ok) { r.out = "error"; classify(r, label, false, !file.empty(), false); return r; }
+    if (!ok) {
+        r.out = "error";
+        if (b >= 0 || e >= 0) {
+            Dense_<V> F;
+            if (real_bin_dense(F, -1, -1) && F.val.size() == F.n * F.m) {
+                long bb = b < 0 ? 0 : b, ee = e < 0 ? (long)F.n : e;
+                if (bb <= ee && ee <= (long)F.n) r.fail("row-range read_dense throws although the full read of the file succeeds");
+            }
+            r.tag("range");
+        }
+        classify(r, label, false, !file.empty(), false); return r;
+    }
     size_t rows = D.n;                                   // read_dense reports the FILE's row count in n
     long bb = b < 0 ? 0 : b, ee = e < 0 ? (long)D.n : e;
     rows = (size_t)(ee - bb);
@@ -263,15 +304,15 @@ template <class V> static Result op_bin_read_dense(const std::string &label, con
         }
         r.tag("range");
     }
-    classify(r, label, true, !file.empty(), !D.val.empty()); r.tag(KK::w == 1 ? "bin_dense_real" : "bin_dense_complex");
+    classify(r, label, true, !file.empty(), !D.val.empty()); r.tag(std::string("bin_dense_") + KK::name());
     return r;
 }
 
 // round-trip ops -----------------------------------------------------------------------------------------
-template <class V, class KK> static Sparse<V> parse_crs(Cur &c) {
-    Sparse<V> A; long n = c.nat(), m = c.nat(); if (n < 0 || m < 0) throw bad_input("shape");
+template <class V, class KK, class C = ptrdiff_t> static Sparse<V, C> parse_crs(Cur &c) {
+    Sparse<V, C> A; long n = c.nat(), m = c.nat(); if (n < 0 || m < 0) throw bad_input("shape");
     A.n = n; A.m = m; A.ptr.push_back(0);
-    for (long i = 0; i < n; ++i) { long k = c.nat(); if (k < 0) throw bad_input("k"); for (long j = 0; j < k; ++j) { long cc = c.nat(); if (cc < 0 || cc >= m) throw bad_input("col"); A.col.push_back(cc); A.val.push_back(KK::parse(c)); } A.ptr.push_back((ptrdiff_t)A.col.size()); }
+    for (long i = 0; i < n; ++i) { long k = c.nat(); if (k < 0) throw bad_input("k"); for (long j = 0; j < k; ++j) { long cc = c.nat(); if (cc < 0 || cc >= m) throw bad_input("col"); A.col.push_back((C)cc); A.val.push_back(KK::parse(c)); } A.ptr.push_back((ptrdiff_t)A.col.size()); }
     return A;
 }
 template <class V, class KK> static Dense_<V> parse_dense(Cur &c) {
@@ -280,16 +321,16 @@ template <class V, class KK> static Dense_<V> parse_dense(Cur &c) {
     return D;
 }
 // expected result of reading rows [b,e) of A back: rows stably sorted by column
-template <class V> static Sparse<V> expected_read(const Sparse<V> &A, long b, long e) {
-    Sparse<V> X; X.m = A.m; long bb = b < 0 ? 0 : b, ee = e < 0 ? (long)A.n : e; X.n = ee - bb; X.ptr.push_back(0);
+template <class V, class C> static Sparse<V, C> expected_read(const Sparse<V, C> &A, long b, long e) {
+    Sparse<V, C> X; X.m = A.m; long bb = b < 0 ? 0 : b, ee = e < 0 ? (long)A.n : e; X.n = ee - bb; X.ptr.push_back(0);
     for (long i = bb; i < ee; ++i) {
-        std::vector<std::pair<ptrdiff_t, V>> row; for (auto j = A.ptr[i]; j < A.ptr[i + 1]; ++j) row.push_back({A.col[j], A.val[j]});
-        std::stable_sort(row.begin(), row.end(), [](const std::pair<ptrdiff_t, V> &x, const std::pair<ptrdiff_t, V> &y) { return x.first < y.first; });
+        std::vector<std::pair<C, V>> row; for (auto j = A.ptr[i]; j < A.ptr[i + 1]; ++j) row.push_back({A.col[j], A.val[j]});
+        std::stable_sort(row.begin(), row.end(), [](const std::pair<C, V> &x, const std::pair<C, V> &y) { return x.first < y.first; });
         for (auto &cv : row) { X.col.push_back(cv.first); X.val.push_back(cv.second); } X.ptr.push_back((ptrdiff_t)X.col.size());
     }
     return X;
 }
-template <class V, class KK> static bool same_matrix(const Sparse<V> &A, const Sparse<V> &B, bool cols) {
+template <class V, class KK, class C> static bool same_matrix(const Sparse<V, C> &A, const Sparse<V, C> &B, bool cols) {
     if (A.n != B.n || (cols && A.m != B.m) || A.ptr != B.ptr || A.col != B.col || A.val.size() != B.val.size()) return false;
     for (size_t k = 0; k < A.val.size(); ++k) if (!KK::same(A.val[k], B.val[k])) return false;
     return true;
@@ -329,14 +370,14 @@ template <class V> static Result op_mm_rt_dense(const std::string &label, Cur &c
     classify(r, label, ok, true, !D.val.empty()); r.tag(std::string("mm_rt_dense_") + KK::name()); if (b >= 0 || e >= 0) r.tag("range");
     return r;
 }
-template <class V> static Result op_bin_rt_crs(const std::string &label, Cur &c) {
-    typedef W<V> KK; long b = cur_long(c), e = cur_long(c); Sparse<V> A = parse_crs<V, KK>(c); c.expect_end();
+template <class V, class C> static Result op_bin_rt_crs(const std::string &label, Cur &c) {
+    typedef W<V> KK; long b = cur_long(c), e = cur_long(c); Sparse<V, C> A = parse_crs<V, KK, C>(c); c.expect_end();
     Result r; std::remove(case_path().c_str());
     { std::ofstream f(case_path(), std::ios::binary);      // the write sequence of examples/mm2bin.cpp
       bool w = amgcl::io::write(f, A.n) && amgcl::io::write(f, A.ptr) && amgcl::io::write(f, A.col) && amgcl::io::write(f, A.val);
       if (!w) r.fail("io::write failed"); }
     Bytes file = get_file();
-    Sparse<V> R; bool ok = real_bin_crs(R, b, e);
+    Sparse<V, C> R; bool ok = real_bin_crs(R, b, e);
     if (ok) { long bb = b < 0 ? 0 : b, ee = e < 0 ? (long)R.n : e; R.n = (size_t)(ee - bb); }
     std::string why;
     if (ok && !wf(R, false, why)) r.fail("read_crs returned a structurally invalid matrix: " + why);
@@ -345,7 +386,8 @@ template <class V> static Result op_bin_rt_crs(const std::string &label, Cur &c)
         else if (!same_matrix<V, KK>(R, expected_read(A, b, e), false)) r.fail("binary read(write(A)) != A");
     } else if (ok) r.fail("invalid row range accepted");
     r.out = hex(file) + " " + (ok ? show<V, KK>(R, false) : std::string("error"));
-    classify(r, label, ok, true, !A.val.empty()); r.tag(KK::w == 1 ? "bin_rt_crs_real" : "bin_rt_crs_complex"); if (b >= 0 || e >= 0) r.tag("range");
+    classify(r, label, ok, true, !A.val.empty()); r.tag("bin_rt_crs_" + bin_tag<V, C>()); if (b >= 0 || e >= 0) r.tag("range");
+    { long bb = b < 0 ? 0 : b, ee = e < 0 ? (long)A.n : e; if (bb > 0 && bb <= ee && ee <= (long)A.n && A.ptr[bb] > 0 && A.ptr[ee] > A.ptr[bb]) r.tag("range_offset"); }
     return r;
 }
 template <class V> static Result op_bin_rt_dense(const std::string &label, Cur &c) {
@@ -364,7 +406,7 @@ template <class V> static Result op_bin_rt_dense(const std::string &label, Cur &
         if (ok) R.n = (size_t)(ee - bb);
     } else if (ok) r.fail("invalid row range accepted");
     r.out = hex(file) + " " + (ok ? show<V, KK>(R) : std::string("error"));
-    classify(r, label, ok, true, !D.val.empty()); r.tag(KK::w == 1 ? "bin_rt_dense_real" : "bin_rt_dense_complex"); if (b >= 0 || e >= 0) r.tag("range");
+    classify(r, label, ok, true, !D.val.empty()); r.tag(std::string("bin_rt_dense_") + KK::name()); if (b >= 0 || e >= 0) r.tag("range");
     return r;
 }
 
@@ -402,11 +444,13 @@ static Result execute(const Toks &t) {
         if (kind == "integer") return f((int*)nullptr);
         throw bad_input("kind");
     };
-    auto words = [&](auto f) -> Result {               // binary ops: words per value
-        long w = cur_long(c);
-        if (w == 1) return f((double*)nullptr);
-        if (w == 2) return f((cplx*)nullptr);
-        throw bad_input("w");
+    auto types = [&](bool sparse, auto f) -> Result {  // binary ops: instantiation token ("i" prefix = Col int, sparse only)
+        std::string t = c.tok(); bool ic = false;
+        if (sparse && !t.empty() && t[0] == 'i') { ic = true; t = t.substr(1); }
+        if (t == "1") return ic ? f((double*)nullptr, (int*)nullptr) : f((double*)nullptr, (ptrdiff_t*)nullptr);
+        if (t == "2") return ic ? f((cplx*)nullptr, (int*)nullptr) : f((cplx*)nullptr, (ptrdiff_t*)nullptr);
+        if (t == "f") return ic ? f((float*)nullptr, (int*)nullptr) : f((float*)nullptr, (ptrdiff_t*)nullptr);
+        throw bad_input("type");
     };
     auto file_b_e = [&](Bytes &file, long &b, long &e) { file = unhex(c.tok()); b = cur_long(c); e = cur_long(c); c.expect_end(); };
     Bytes file; long b, e;
@@ -414,10 +458,10 @@ static Result execute(const Toks &t) {
     if (op == "io_mm_read_dense") return kind3([&](auto *p) { typedef typename std::remove_pointer<decltype(p)>::type V; file_b_e(file, b, e); return op_mm_read_dense<V>(label, file, b, e); });
     if (op == "io_mm_rt_sparse") return kind3([&](auto *p) { typedef typename std::remove_pointer<decltype(p)>::type V; return op_mm_rt_sparse<V>(label, c); });
     if (op == "io_mm_rt_dense") return kind3([&](auto *p) { typedef typename std::remove_pointer<decltype(p)>::type V; return op_mm_rt_dense<V>(label, c); });
-    if (op == "io_bin_read_crs") return words([&](auto *p) { typedef typename std::remove_pointer<decltype(p)>::type V; file_b_e(file, b, e); return op_bin_read_crs<V>(label, file, b, e); });
-    if (op == "io_bin_read_dense") return words([&](auto *p) { typedef typename std::remove_pointer<decltype(p)>::type V; file_b_e(file, b, e); return op_bin_read_dense<V>(label, file, b, e); });
-    if (op == "io_bin_rt_crs") return words([&](auto *p) { typedef typename std::remove_pointer<decltype(p)>::type V; return op_bin_rt_crs<V>(label, c); });
-    if (op == "io_bin_rt_dense") return words([&](auto *p) { typedef typename std::remove_pointer<decltype(p)>::type V; return op_bin_rt_dense<V>(label, c); });
+    if (op == "io_bin_read_crs") return types(true, [&](auto *p, auto *q) { typedef typename std::remove_pointer<decltype(p)>::type V; typedef typename std::remove_pointer<decltype(q)>::type C; file_b_e(file, b, e); return op_bin_read_crs<V, C>(label, file, b, e); });
+    if (op == "io_bin_read_dense") return types(false, [&](auto *p, auto *) { typedef typename std::remove_pointer<decltype(p)>::type V; file_b_e(file, b, e); return op_bin_read_dense<V>(label, file, b, e); });
+    if (op == "io_bin_rt_crs") return types(true, [&](auto *p, auto *q) { typedef typename std::remove_pointer<decltype(p)>::type V; typedef typename std::remove_pointer<decltype(q)>::type C; return op_bin_rt_crs<V, C>(label, c); });
+    if (op == "io_bin_rt_dense") return types(false, [&](auto *p, auto *) { typedef typename std::remove_pointer<decltype(p)>::type V; return op_bin_rt_dense<V>(label, c); });
     if (op == "io_bin_crs_size") {
         file = unhex(c.tok()); c.expect_end(); put_file(file); Result r;
         try { size_t n = amgcl::io::crs_size<size_t>(case_path()); r.out = "ok " + std::to_string(n); } catch (const std::exception &) { r.out = "error"; }
